@@ -85,3 +85,40 @@ Fixpoint lower (g : gty) : option ty :=
     | None => None
     end
   end.
+
+(* decidable equality on descriptors (comparison of a re-extracted table with the committed one) *)
+Fixpoint list_eqb {A : Type} (eq : A -> A -> bool) (a b : list A) : bool :=
+  match a, b with
+  | [], [] => true
+  | x :: a', y :: b' => eq x y && list_eqb eq a' b'
+  | _, _ => false
+  end.
+
+Fixpoint gty_eqb (a b : gty) : bool :=
+  match a, b with
+  | GUint x, GUint y => x =? y
+  | GBigPtr, GBigPtr | GBig, GBig | GBool, GBool | GString, GString | GBytes, GBytes
+  | GIface, GIface | GRaw, GRaw => true
+  | GByteArr x, GByteArr y => x =? y
+  | GSlice x, GSlice y => gty_eqb x y
+  | GArr n x, GArr m y => Nat.eqb n m && gty_eqb x y
+  | GPtr x, GPtr y => gty_eqb x y
+  | GCustom x, GCustom y => String.eqb x y
+  | GBad x, GBad y => String.eqb x y
+  | GStruct n fs, GStruct m gs =>
+    String.eqb n m &&
+    (fix go (fs gs : list (string * bool * list string * gty)) {struct fs} : bool :=
+       match fs, gs with
+       | [], [] => true
+       | (n1, e1, w1, t1) :: r1, (n2, e2, w2, t2) :: r2 =>
+         String.eqb n1 n2 && Bool.eqb e1 e2 && list_eqb String.eqb w1 w2 && gty_eqb t1 t2 && go r1 r2
+       | _, _ => false
+       end) fs gs
+  | _, _ => false
+  end.
+
+Fixpoint lookup_gty (name : string) (l : list (string * gty)) : option gty :=
+  match l with
+  | [] => None
+  | (n, g) :: r => if String.eqb n name then Some g else lookup_gty name r
+  end.
